@@ -617,7 +617,9 @@ func TestC07_PaddingInside(t *testing.T) {
 	// different moment than it computes the padding lets the tail through (D15) — and with a one-character tail, inside or
 	// outside the alphabet
 	breaks := []string{"\n", "\r", "\r\n", "\n\r"}
-	short := []string{"0", "A", "2", "=", "1A", "MZXW6YQ"}
+	// (no tail made of '=' alone: more padding behind the padding is surplus TRAILING padding once the line break is dropped -
+	// not padding in the middle, and not an impossible length "after unpadding": the statement leaves it open, F28)
+	short := []string{"0", "A", "2", "1A", "MZXW6YQ"}
 	i := 0
 	for n := 1; n <= 704; n++ {
 		if n%5 == 0 {
@@ -636,10 +638,6 @@ func TestC07_PaddingInside(t *testing.T) {
 		if n <= 64 {
 			for bi, br := range breaks {
 				for si, sh := range short {
-					if sh == "=" && (len(ref.B32Pad(make([]byte, n)))+1)%8 != 1 {
-						// one more '=' may complete another admissible padding shape: not a case of padding in the middle
-						continue
-					}
 					i++
 					if ev.Mine(i) {
 						c07Pad.each(t, c07PadCase{N: n, Tail: br + sh, Lower: (bi+si)%2 == 1})
